@@ -47,7 +47,8 @@ def check(pid, tier):
     ev_cov = {}
     with core.Lock():
         # ---------------- static half: translator + theorems
-        st = core.static_check(pid, tier, getattr(mod, "ARTEFACTS", None))
+        st = core.static_check(pid, tier, getattr(mod, "ARTEFACTS", None), getattr(mod, "PROPS_MODULE", None),
+                               getattr(mod, "PROPS_PATH", None))
         # ---------------- dynamic half: correspondence
         ok_l, lean_exe, log_l = core.build_lean_driver()
         if not ok_l:
@@ -115,7 +116,7 @@ def check(pid, tier):
             "coverage": {
                 "obligations": max(st.obligations(), 1),
                 "discharged": st.discharged(),
-                "checker_cmd": f"cd lean && lake build B3.Props.{pid} && lake env lean <generated #print axioms file>" +
+                "checker_cmd": f"cd lean && lake build {getattr(mod, 'PROPS_MODULE', None) or 'B3.Props.' + pid} && lake env lean <generated #print axioms file>" +
                                (" && lake env leanchecker B3.Props." + pid if tier == "thorough" else ""),
                 "trusted_base": core.TRUSTED_BASE + getattr(mod, "TRUSTED_EXTRA", []),
                 "theorems": [{"name": t, "axioms": st.axioms.get(t)} for t in st.theorems],
@@ -156,7 +157,8 @@ def replay(pid, path):
     if d.get("kind") == "static":
         print("static failure recorded:", *d.get("broken", []), sep="\n  ")
         with core.Lock():
-            st = core.static_check(pid, "quick", getattr(mod, "ARTEFACTS", None))
+            st = core.static_check(pid, "quick", getattr(mod, "ARTEFACTS", None), getattr(mod, "PROPS_MODULE", None),
+                                   getattr(mod, "PROPS_PATH", None))
         print("static check now:", "ok" if st.ok else "FAILS")
         return 0 if st.ok else 1
     with core.Lock():
